@@ -287,6 +287,15 @@ class _G:
         ifaces = []     # {name, env: shape idx -> local name, names: set, resources: set of local names, funcs}
         top = set()
         nif = r.range(2, 4)
+        # "independent copies" mode: no `use` at all, one chosen shape (and its dependencies) defined locally in
+        # EVERY interface, 3..5 interfaces => three or more independently defined structurally equal types
+        indep = r.chance(1, 3)
+        forced = None
+        if indep:
+            nif = r.range(3, 5)
+            cands = [j for j, s in enumerate(self.shapes) if s[0] != "res"]
+            forced = r.choice(cands) if cands else None
+            self.h("independent-copies-world")
         for ii in range(nif):
             iname = self.fresh(top, "i%d" % ii)
             used = set()
@@ -297,6 +306,8 @@ class _G:
             want = [j for j in range(len(self.shapes)) if r.chance(1, 2)]
             if not want:
                 want = [r.below(len(self.shapes))]
+            if forced is not None and forced not in want:
+                want.append(forced)
             # dependency closure, in index order (dependencies have smaller indices)
             need = set(want)
             changed = True
@@ -311,7 +322,7 @@ class _G:
             for j in sorted(need):
                 s = self.shapes[j]
                 srcs = [x for x in ifaces if j in x["env"]]
-                if srcs and r.chance(1, 2):
+                if srcs and not indep and r.chance(1, 2):
                     src = r.choice(srcs)
                     sn = src["env"][j]
                     if sn not in used and r.chance(2, 3):
@@ -432,8 +443,23 @@ class _G:
             wnames.append(wname)
             wb = []
             some = False
-            for it in ifaces:
+            # order of the import/export statements relative to the definition order (= id order): as defined,
+            # fully reversed (live types are then visited in DESCENDING id order), or shuffled
+            order = list(ifaces)
+            om = r.weighted([("defined", 2), ("reversed", 3), ("shuffled", 2)])
+            if om == "reversed":
+                order.reverse()
+            elif om == "shuffled":
+                for q in range(len(order) - 1, 0, -1):
+                    z = r.below(q + 1)
+                    order[q], order[z] = order[z], order[q]
+            self.h("world-order-" + om)
+            for it in order:
                 m = r.weighted([("import", 3), ("export", 3), ("both", 2), ("skip", 1)])
+                if indep and m == "skip":
+                    m = "import"
+                if om == "reversed" and indep and r.chance(1, 2):
+                    m = "import"       # all on the import side: one strictly descending run
                 if m in ("import", "both"):
                     wb.append("  import %s;\n" % it["name"])
                     some = True
